@@ -28,6 +28,7 @@ type c11Spec struct {
 	Batch []string `json:"batch,omitempty"`
 	LatFrom, LatTo int
 	Sched []int `json:"sched,omitempty"`
+	Shard, Shards int
 }
 
 var c11Classes = []string{"Fsoil", "Ffield", "Ftex", "Fptf", "Fgap", "Ftill", "Fyear", "Fargs"}
@@ -65,6 +66,21 @@ func c11Specs(tier string, seed int) []c11Spec {
 		}
 	}
 	out = append(out, c11Spec{Kind: "e3", Batch: []string{"Fsoil", "A", "Fyear", "B"}, Conc: 2, Bound: bound - 1}, c11Spec{Kind: "e3", Batch: []string{"Fargs", "Fsoil", "A"}, Conc: 2, Bound: bound})
+	if tier == "thorough" {
+		var sharded []c11Spec
+		for _, s := range out {
+			if s.Kind == "e3" && s.Bound >= 2 {
+				for k := 0; k < 4; k++ {
+					t := s
+					t.Shard, t.Shards = k, 4
+					sharded = append(sharded, t)
+				}
+			} else {
+				sharded = append(sharded, s)
+			}
+		}
+		out = sharded
+	}
 	// termination with fertiliser prediction at every latitude
 	for lat := -90; lat <= 90; lat += 10 {
 		out = append(out, c11Spec{Kind: "lat", LatFrom: lat, LatTo: min(lat+9, 90)})
@@ -255,7 +271,7 @@ func c11Run(raw json.RawMessage, c *mc.Ctx) {
 				fail = append(fail, i)
 			}
 		}
-		sc := e3Scenario{WD: root, Lines: lines, Conc: sp.Conc, Bound: sp.Bound, DeadlineS: 140, ExpectFail: fail, Schedule: sp.Sched}
+		sc := e3Scenario{WD: root, Lines: lines, Conc: sp.Conc, Bound: sp.Bound, DeadlineS: 140, ExpectFail: fail, Schedule: sp.Sched, Shard: sp.Shard, Shards: sp.Shards}
 		if c.Tier == "thorough" {
 			sc.DeadlineS = 3000
 		}
